@@ -346,10 +346,17 @@ class Run:
     """one inference; plain-data views of the result"""
 
     def __init__(self, t, fit="dlite", method=None, ign=False, angle=None, mesh_ne=None, solve=True,
-                 allow_negatives=False, pressures=False, extra=None):
+                 allow_negatives=False, pressures=False, extra=None, move=None):
         fs = _fs()
         _np_default()
-        if mesh_ne:
+        if move is not None:
+            # the tissue is handed over displaced by -move and its vertices are then moved in place by +move, the way
+            # TimeSeries does for ForSys(frames, cm=True): everything read later must come from the live positions
+            self.frame = gen.to_frame(gen.transform(t, shift=(-float(move[0]), -float(move[1]))))
+            for v in self.frame.vertices.values():
+                v.x += float(move[0])
+                v.y += float(move[1])
+        elif mesh_ne:
             v, e, c = gen.build(t)
             v, e, c, _ = fs.virtual_edges.generate_mesh(v, e, c, ne=int(mesh_ne))
             self.frame = fs.frames.Frame(0, v, e, c, time=0.0)
@@ -526,7 +533,7 @@ def _case_b02(spec):
     fails = []
     tr = Truth(t)
     try:
-        run = Run(t, fit=fit, ign=ign, solve=False)
+        run = Run(t, fit=fit, ign=ign, solve=False, move=spec.get("move"))
     except Exception as e:      # noqa
         fails.append(_fail(spec, "build-raises", f"build_force_matrix raised {type(e).__name__}: {e}"))
         return dict(spec=spec, info=info, fails=fails)
@@ -1014,6 +1021,8 @@ def cases_b02(tier, seed):
         ts = small_tissue_spec(rng, list(range(0, 16)), moebius=float(rng.choice([0.05, 0.2, 0.4, 0.6, 0.8, 0.95])))
         ts["xf"] = rand_xf(rng)
         out.append(dict(check="B02", tissue=ts, fit=str(rng.choice(["dlite", "taubinSVD"])), ign=bool(rng.random() < 0.3)))
+        if rng.random() < 0.15:      # vertices moved in place after the frame was built (centre-of-mass shift of a time series)
+            out[-1]["move"] = [float(rng.uniform(-30, 30)), float(rng.uniform(-30, 30))]
     for _ in range(n_str):
         ts = small_tissue_spec(rng, [0, 0, 0, 1, 2, 3, 5, 8, 15])
         ts["xf"] = rand_xf(rng)
